@@ -30,7 +30,20 @@ SyncClauses(e) ==
   IF e.short THEN (IF e.raised # "BufferError" THEN {"short-record-not-rejected"} ELSE {})
   ELSE (IF e.raised # "none" THEN {"sync-raised"} ELSE
         (IF e.idx # e.d THEN {"sync-index"} ELSE {}) \cup (IF ~e.samestart THEN {"sync-signal-start"} ELSE {}))
-Clauses(e) == CASE e.kind = "set" -> SetClauses(e) [] e.kind = "set_data" -> DataClauses(e)
+StripAny(c) == IF c.verb = "PATT:DATA" THEN c ELSE Strip(c)
+FlagClauses(e) ==
+  (IF e.raised THEN {"raised"} ELSE
+   (IF [i \in 1..Len(e.cmds) |-> Strip(e.cmds[i])] # FlagCmds(e.verb, e.val, e.sel) THEN {"commands-differ"} ELSE {}) \cup
+   (IF \E i \in 1..Len(e.cmds) : ~CmdOK(Strip(e.cmds[i])) THEN {"command-out-of-range"} ELSE {}) \cup
+   (IF e.warned # ChWarn(e.sel) THEN {"warning"} ELSE {}))
+ConfigClauses(e) ==
+  (IF e.raised THEN {"raised-instead-of-clamping"} ELSE
+   LET want == ConfigSetCmds(e.c, e.sel) \o (IF ConfigSendsData(e.c) THEN DataCmds(e.bits, 1, e.sel) ELSE <<>>) IN
+   (IF [i \in 1..Len(e.cmds) |-> StripAny(e.cmds[i])] # want THEN {"composite-differs-from-individual-calls"} ELSE {}) \cup
+   (IF \E i \in 1..Len(e.cmds) : (e.cmds[i].verb = "PATT:DATA" /\ ~BlockOK(e.cmds[i])) \/ (e.cmds[i].verb # "PATT:DATA" /\ (~e.cmds[i].exact \/ ~CmdOK(Strip(e.cmds[i]))))
+      THEN {"command-out-of-range"} ELSE {}) \cup
+   (IF ConfigMustWarn(e.c, e.sel) /\ ~e.warned THEN {"warning"} ELSE {}))
+Clauses(e) == CASE e.kind = "set" -> SetClauses(e) [] e.kind = "flag" -> FlagClauses(e) [] e.kind = "config" -> ConfigClauses(e) [] e.kind = "set_data" -> DataClauses(e)
                 [] e.kind = "get_data" -> GetClauses(e) [] e.kind = "sync" -> SyncClauses(e)
                 [] e.kind = "wipe" -> {}                 \* a fresh simulated instrument is attached
 Step == /\ l <= Len(Trace)
@@ -38,6 +51,7 @@ Step == /\ l <= Len(Trace)
            /\ bad' = bad \cup {<<l, c>> : c \in Clauses(e)}
            \* the memory follows what the driver actually sent (the fake instrument stores it)
            /\ mem' = IF e.kind = "set_data" /\ ~e.raised THEN Store(mem, e.cmds)
+                      ELSE IF e.kind = "config" /\ ~e.raised THEN Store(mem, SelectSeq(e.cmds, LAMBDA c : c.verb = "PATT:DATA"))
                       ELSE IF e.kind = "wipe" THEN <<>> ELSE mem
         /\ l' = l + 1
 Spec == Init /\ [][Step]_tvars
